@@ -36,6 +36,11 @@ package rules
 // (pickUniform(lb.Servers), pickByWeight(lb.Servers, draw), a method pick(draw)) followed for the
 // element-of, immutability, bound and weighted-selection rules, watchServers split into helpers,
 // the watch goroutine as a method/function started with `go`, nil predicates such as noServer(svr).
+// Fourth seeded round: c04_attempt.go (R-C04-9: the balancer is loaded and the server selected
+// inside the attempt function the resilience wrappers invoke, before every send of that attempt);
+// R-C04-4 follows the ticket into an index helper (`lb.pick(ticket)`) and demands that the counter
+// and every value up to the modulo stay 64 bits wide; R-C04-6 decides len(<receiver>.<list>) in a
+// method of the common part at the call sites of that method.
 //
 // Tested on the tree this was developed against (scratch worktree @ ce8b88e): exit 1 with
 // exactly one violation,
@@ -169,6 +174,7 @@ func c04(c *core.Ctx) string {
 	c04OneType(c, info)
 	c04SSA(c, info)
 	c04Weighted(c, info)
+	c04Attempt(c, info)
 	return "Shape rules for the proxy load balancers: nil result never dereferenced or sent (path-sensitive, all ChooseServer call sites); every implementation returns nil only for a list known empty and otherwise an element load of its immutable list (flow engine + SSA value flow); list/keys/weights immutable after construction and the balancer published only through atomic.Value on every path of NewServerPool; the round-robin index comes from a single atomic fetch-add; hash policies reach no source of nondeterminism or mutable state; every random bound / divisor is proven positive on all paths; discovery publishes the filtered list or, exactly when it is empty, the static list. Not decided: distributions and counts, arithmetic reachability of the weightedRandom BUG panic, schedules."
 }
 
@@ -1592,7 +1598,7 @@ func c04Bounds(c *core.Ctx, info *c04Info) {
 					continue
 				}
 				c.Count("functions_analysed", 1)
-				var list *types.Var
+				list := c04CommonList(info)
 				if im := info.byMethod[c04FuncObj(pkg, fd)]; im != nil {
 					list = im.list
 				}
@@ -1655,7 +1661,7 @@ func c04Bounds(c *core.Ctx, info *c04Info) {
 					}
 					// the bound is a parameter of an unexported function: decide at its call sites
 					if ui == 0 {
-						if idx, lenOf := c04ParamIndex(f, fd, q, b.bound); idx >= 0 && !fd.Name.IsExported() {
+						if idx, lenOf := c04ParamIndex(f, fd, q, b.bound); (idx >= 0 || idx == c04RecvArg) && !fd.Name.IsExported() {
 							n, badCall, badSt := c04ArgPositiveAtCalls(c, info, pkg, c04FuncObj(pkg, fd), idx, lenOf)
 							if n > 0 && badCall == nil {
 								c.Discharge("R-C04-6", cons, pos(c, b.site), sprintf("%s is a parameter of %s; the argument is known positive at all %d call sites", types.ExprString(b.bound), fd.Name.Name, n))
@@ -1663,7 +1669,7 @@ func c04Bounds(c *core.Ctx, info *c04Info) {
 							}
 							if badCall != nil {
 								c.Violate("R-C04-6", cons, pos(c, badCall),
-									sprintf("%s depends on a parameter of %s and the argument `%s` passed here is not known to be positive / non-empty: %s", types.ExprString(b.bound), fd.Name.Name, types.ExprString(badCall.Args[idx]), map[bool]string{true: "rand.Intn panics for an argument <= 0", false: "integer division by zero"}[strings.Contains(b.role, "bound")]), witness(badSt)...)
+									sprintf("%s depends on a parameter of %s and the argument `%s` passed here is not known to be positive / non-empty: %s", types.ExprString(b.bound), fd.Name.Name, c04ArgString(badCall, idx), map[bool]string{true: "rand.Intn panics for an argument <= 0", false: "integer division by zero"}[strings.Contains(b.role, "bound")]), witness(badSt)...)
 								continue
 							}
 						}
@@ -1704,7 +1710,39 @@ func c04ParamIndex(f *flow.Func, fd *ast.FuncDecl, q *c04Facts, e ast.Expr) (ind
 		}
 	}
 	i := c04ParamIndexOf(f, fd, q, r)
+	// len(<receiver>.<list>) in a method (e.g. of the embedded base): decided at the call sites
+	// for the object the method is called on
+	if i < 0 && lenOf && fd.Recv != nil && len(fd.Recv.List) == 1 && len(fd.Recv.List[0].Names) == 1 {
+		if q.canon(r, 0) == "§list("+f.Render(fd.Recv.List[0].Names[0])+")" {
+			return c04RecvArg, true
+		}
+	}
 	return i, lenOf
+}
+
+func c04ArgString(call *ast.CallExpr, idx int) string {
+	if idx == c04RecvArg {
+		if sel, ok := ast.Unparen(call.Fun).(*ast.SelectorExpr); ok {
+			return types.ExprString(sel.X)
+		}
+		return "receiver"
+	}
+	return types.ExprString(call.Args[idx])
+}
+
+// c04RecvArg stands for "the receiver" in the argument position of c04ArgPositiveAtCalls.
+const c04RecvArg = -2
+
+// c04CommonList returns the list field shared by all implementations (nil if they differ).
+func c04CommonList(info *c04Info) *types.Var {
+	var l *types.Var
+	for _, im := range info.impls {
+		if l != nil && im.list != l {
+			return nil
+		}
+		l = im.list
+	}
+	return l
 }
 
 func c04ParamIndexOf(f *flow.Func, fd *ast.FuncDecl, q *c04Facts, r ast.Expr) int {
@@ -1756,7 +1794,7 @@ func c04ArgPositiveAtCalls(c *core.Ctx, info *c04Info, pkg *packages.Package, fo
 			if len(sites) == 0 {
 				continue
 			}
-			var list *types.Var
+			list := c04CommonList(info)
 			if im := info.byMethod[c04FuncObj(pkg, gd)]; im != nil {
 				list = im.list
 			}
@@ -1766,7 +1804,11 @@ func c04ArgPositiveAtCalls(c *core.Ctx, info *c04Info, pkg *packages.Package, fo
 				visited[s]++
 				call := s.(*ast.CallExpr)
 				ok := false
-				if lenOf {
+				if idx == c04RecvArg {
+					if sel, isSel := ast.Unparen(call.Fun).(*ast.SelectorExpr); isSel {
+						ok = q.positiveK(st, "len(§list("+q.canonRoot(sel.X, 0)+"))")
+					}
+				} else if lenOf {
 					ok = q.positiveK(st, "len("+q.canon(call.Args[idx], 0)+")")
 				} else {
 					ok = q.positive(st, call.Args[idx])
